@@ -5,7 +5,7 @@ import re
 
 from ..algebra import RF, Alg, atom, const, ref
 from ..model import AnalysisError, attr_chain, stmts_in
-from ..pe import PE, K, Raised
+from ..pe import PE, K, Obj, Raised
 
 EXPLANATION = (
     "Static rules over Viewbox.viewbox_transform (no execution). R11.1: for every align value (none + 9 xM?YM? values, "
@@ -29,7 +29,7 @@ ASSUMPTIONS = [
     "Number formatting (Length.str, 12 decimals) is outside the decided part.",
 ]
 EXHAUSTIVE = True
-FLOORS = {"R11.1": 120, "R11.3": 10, "R11.4": 16, "R11.6": 2}
+FLOORS = {"R11.1": 120, "R11.3": 10, "R11.4": 16, "R11.6": 2, "R11.7": 8}
 
 ALIGNS = ["none"] + ["x%sY%s" % (a, b) for a in ("Min", "Mid", "Max") for b in ("Min", "Mid", "Max")]
 PARAMS = ["e_x", "e_y", "e_width", "e_height", "vb_x", "vb_y", "vb_width", "vb_height", "aspect"]
@@ -62,7 +62,9 @@ def run(ctx):
     ctx.rule("R11.4", "output order and identity elision")
     ctx.rule("R11.5", "parameter plumbing")
     ctx.rule("R11.6", "an incomplete viewBox counts as no viewBox")
+    ctx.rule("R11.7", "the element size handed to render: each dimension defaults on its own (caller value, else viewBox dimension, else 1000)")
     incomplete_viewbox(ctx)
+    size_defaults(ctx)
     fn = ctx.fn("Viewbox.viewbox_transform", "R11.1")
     have = [a.arg for a in fn.args.args]
     ctx.need(len(have) == 9, "R11.1", "viewbox_transform parameters changed: %s" % have)
@@ -269,6 +271,61 @@ def run(ctx):
     ctx.ob("R11.5", "Viewbox.set_viewbox[order]", m == {"x": 0, "y": 1, "width": 2, "height": 3}, str(m), sv.lineno, "viewBox is min-x min-y width height")
     incomplete_ok = any(isinstance(h.type, ast.Name) and h.type.id == "IndexError" for t in ast.walk(sv) if isinstance(t, ast.Try) for h in t.handlers)
     ctx.ob("R11.5", "Viewbox.set_viewbox[incomplete]", incomplete_ok, "", sv.lineno, "an incomplete viewBox must not raise (it yields the identity through the None guard)")
+
+
+def size_defaults(ctx):
+    """SVG.parse hands s.render(width=, height=) the size the element's percentages and the viewport transform are resolved
+    against.  The two names come from the caller (or the enclosing svg) and either may be None; the statements that fill them
+    in are followed for all eight combinations (width given?, height given?, viewBox present?): a given dimension must reach
+    render unchanged, a missing one becomes the viewBox's dimension of the same axis, else 1000."""
+    fn = ctx.fn("SVG.parse", "R11.7")
+    site = None
+    for blk_owner in ast.walk(fn):
+        for field in ("body", "orelse", "finalbody"):
+            blk = getattr(blk_owner, field, None)
+            if not isinstance(blk, list):
+                continue
+            for i, st in enumerate(blk):
+                if isinstance(st, ast.Expr) and isinstance(st.value, ast.Call) and isinstance(st.value.func, ast.Attribute) and st.value.func.attr == "render" \
+                        and {"width", "height", "viewbox"} <= {k.arg for k in st.value.keywords}:
+                    site = (blk, i, st.value)
+    ctx.need(site is not None, "R11.7", "SVG.parse: render(width=, height=, viewbox=) of the svg element not found")
+    blk, i, call = site
+    kw = {k.arg: k.value for k in call.keywords}
+    ctx.need(isinstance(kw["width"], ast.Name) and isinstance(kw["height"], ast.Name) and isinstance(call.func.value, ast.Name), "R11.7", "render arguments are not plain names")
+    wn, hn, el = kw["width"].id, kw["height"].id, call.func.value.id
+    vb = ast.unparse(kw["viewbox"])
+    # the run of statements before the call that only write the two names
+    j = i
+    while j > 0:
+        st = blk[j - 1]
+        stores = {n.id for n in ast.walk(st) if isinstance(n, ast.Name) and isinstance(n.ctx, ast.Store)}
+        if isinstance(st, (ast.If, ast.Assign)) and stores and stores <= {wn, hn} and not any(isinstance(n, ast.Call) for n in ast.walk(st)):
+            j -= 1
+        else:
+            break
+    stmts = blk[j:i]
+    ctx.need(stmts, "R11.7", "SVG.parse: no defaulting statements before render")
+    for wgiven, hgiven, hasvb in itertools.product([True, False], repeat=3):
+        cons = "SVG.parse[size: width %s, height %s, viewBox %s]" % ("given" if wgiven else "missing", "given" if hgiven else "missing", "present" if hasvb else "absent")
+        pe = PE(ctx.m, "R11.7", cons)
+        pe.bind(wn, atom("W") if wgiven else K(None))
+        pe.bind(hn, atom("H") if hgiven else K(None))
+        pe.attrs[vb] = K(Obj("vb")) if hasvb else K(None)
+        try:
+            pe.run(stmts)
+            got = (pe.env.get(wn), pe.env.get(hn))
+            detail = ""
+        except Raised as e:
+            got, detail = (None, None), "raises %s" % e.name
+        want = (atom("W") if wgiven else (atom(vb + ".width") if hasvb else const(1000)), atom("H") if hgiven else (atom(vb + ".height") if hasvb else const(1000)))
+
+        def same(g, w):
+            return isinstance(g, RF) and g == w
+
+        ok = same(got[0], want[0]) and same(got[1], want[1])
+        ctx.ob("R11.7", cons, ok, detail or "render gets (%s, %s), wanted (%s, %s)" % (got[0], got[1], want[0], want[1]), call.lineno,
+               "each dimension defaults on its own: a width the caller supplied must not be replaced because the height is missing (and vice versa)")
 
 
 def incomplete_viewbox(ctx):
